@@ -30,6 +30,25 @@ WHY = {
                 "also fired on a behaviour-preserving refactoring and was replaced (10.7 item 26)",
     "C20-r3-2": "`datetime == date` is always False in the shared weekday helper; reported by C03 (weekday never the "
                 "reference day), which is the clause actually broken; C20 compares compositions and is not affected",
+    "C01-r4-1": "`datetime.timedelta(days=N)` overflows in its *constructor* for N >= 1e9, outside the guarded addition: "
+                "E3 models the overflow of `datetime + delta` and of `relativedelta`, not of the `timedelta` constructor",
+    "C01-r4-2": "`max((p.score, p) ...)` compares the candidates themselves on tied scores (TypeError): reported by C14 "
+                "(`selection`: the ordering is not the score), which shares the anchor; C01 does not model tuple ordering "
+                "falling through to unordered objects",
+    "C04-r4-1": "`for year in range(year, year + 9)` in a new search helper: a range with symbolic bounds is outside the "
+                "interpreter's loop model (exit 2, no verdict)",
+    "C04-r4-2": "rrule search replaced by a hand-written month-stepping loop with a 14-month bound: the search idiom is not "
+                "recognised (exit 2, no verdict); C05's non-interference clause reports the clipped day the fallback returns",
+    "C11-r4-2": "ASCII fast path through `str.translate`/`split`/`join`: not a chain of the two substitutions the class "
+                "comparison follows (exit 2, no verdict)",
+    "C14-r4-2": "emission loop rewritten as list steps (score all, filter all, then record): the re-emission guard is no "
+                "longer found per element (instance count below floor, exit 2, no verdict)",
+    "C15-r4-2": "completeness of the sequence enumeration (an early `break` in the adjacency loop assumes single-blank "
+                "separators; a stripped label leaves two): declared not decided",
+    "C17-r4-2": "training samples collapsed with multiplicities, the first label seen kept per token sequence: numeric "
+                "behaviour of the training pipeline, declared not decided (C16/C17)",
+    "C20-r4-2": "`overlapped=True` dropped from the matcher: reported by C15 (`all overlapping matches`), the clause actually "
+                "broken; C20 compares compositions of the matches it is given",
     "C20-r2-2": "initial scoring moved below the coverage filter so the depth cut keeps arbitrary sequences: a "
                 "ranking effect, not decided by C20; reported by C14 `depth cut after sort`",
 }
@@ -70,7 +89,7 @@ def main():
     n_inc_now = cnt(lambda m: not m["detected_by_own_property_check"] and m["property"] in m["checks_analysis_incomplete"])
     stats = ("Measured against the snapshot of `/verif` that existed *before* the respective round was read "
              "(`seeded/unbiased_first_pass.log`: round 1 against commit aeb5af4, round 2 against a29a19e, round 3 "
-             "against 082ffc4), the property's own check reported {} of the {} changes ({}), {} more ended without a "
+             "against 082ffc4, round 4 against e5fdcf2), the property's own check reported {} of the {} changes ({}), {} more ended without a "
              "verdict (exit 2) and the rest were silent. The misses were read, generalised into rules (never into "
              "matches on the seeded text) and the checks strengthened; with the committed checks the own check "
              "reports {} of {} ({}), {} end without a verdict (exit 2: the analysis says it cannot decide that tree, "
